@@ -166,6 +166,9 @@ class ScriptedProtocol(IProtocol):
             except ValueError:
                 res = "errvalue"
             CTX.trace.append("act %d %s %s" % (nid, _act_str(a), res))
+        hook = getattr(CTX, "after_fire", None)
+        if hook is not None:
+            hook(self)
 
     def _do(self, a):
         k = a[0]
